@@ -100,13 +100,20 @@ def parseExt (s : String) : Except String PckExt :=
 def parseCerts (s : String) : Except String (List Cert) :=
   (listOf s ";").mapM fun c =>
     match c.splitOn ":" with
-    | [id, pk, ext] => do
+    | id :: pk :: ext :: rest => do
       let some id := hex id | throw "bad cert id"
       let pk ← if pk == "-" then pure none else match hex pk with
         | some b => pure (some b)
         | none => throw "bad cert pk"
       let ext ← parseExt ext
-      pure { der := id, ecdsaPk := pk, ext := ext }
+      let pce ← match rest with
+        | [] => pure none
+        | ["~"] => pure none
+        | [p] => match hex p with
+          | some b => pure (some b)
+          | none => throw "bad cert pceid"
+        | _ => throw "bad cert"
+      pure { der := id, ecdsaPk := pk, ext := ext, pceId := pce }
     | _ => .error "bad cert"
 
 def parseX (s : String) (leaf : Option Cert) : Except String (Option (List (List Cert))) :=
@@ -158,7 +165,13 @@ def parseTime (s : String) : Except String (Option Time) :=
 def parseTi (s : String) : Except String (Option TcbInfo) :=
   if s == "none" then .ok none else
   match s.splitOn "|" with
-  | [id, ver, issue, next, fmspc, ev, lv, mods] => do
+  | id :: ver :: issue :: next :: fmspc :: ev :: lv :: mods :: rest => do
+    let pce ← match rest with
+      | [] => pure []
+      | [p] => match hex p with
+        | some b => pure b
+        | none => throw "bad ti pceid"
+      | _ => throw "bad ti"
     let some id := hex id | throw "bad ti id"
     let some ver := parseInt ver | throw "bad ti version"
     let issue ← parseTime issue
@@ -167,7 +180,7 @@ def parseTi (s : String) : Except String (Option TcbInfo) :=
     let lv ← parseTcbLevels lv
     let mods ← parseModules mods
     pure (some { id := id, version := ver, issueDate := issue, nextUpdateOk := next == "1",
-                 fmspc := fmspc, evalNum := ev, levels := lv, modules := mods })
+                 fmspc := fmspc, evalNum := ev, levels := lv, modules := mods, pceId := pce })
   | _ => .error "bad ti"
 
 def parseQi (s : String) : Except String (Option QeIdentity) :=
@@ -381,6 +394,18 @@ def checkAtt (m : KV) (c : Case) (res : Except Stage Verified) : Option String :
     | _, _ => some "bad attestation fields"
   | _, _ => none
 
+/-- Spec-only clauses evaluated on accepted inputs (the Go code does not check them; the harness
+evaluates the same clauses itself and the two must agree). -/
+def specNotes (c : Case) (res : Except Stage Verified) : String :=
+  match res, c.tcb with
+  | .ok _, some b =>
+    match c.L.jsonTcb b.tcbInfo.raw with
+    | some ti =>
+      (if pceIdOK c.q ti then "" else " spec=pceid") ++
+      (if blacklistedByValue (c.pol.getD defaultPolicy) ti then " spec=blacklist-case" else "")
+    | none => ""
+  | _, _ => ""
+
 def step (_ : Unit) (line : String) : Unit × String :=
   let m := kvs line
   if m.isEmpty then ((), "ok") else
@@ -403,7 +428,7 @@ def step (_ : Unit) (line : String) : Unit × String :=
     match checkAtt m c res with
     | some d => ((), "DIVERGE " ++ d)
     | none =>
-    if r == impl then ((), "ok")
+    if r == impl then ((), "ok" ++ specNotes c res)
     else if impl == "reject:?" && r.startsWith "reject:" then ((), "ok " ++ r)
     else ((), s!"DIVERGE model={r} impl={impl}")
 
